@@ -35,16 +35,21 @@ def decl? : Sexp → Option DeclInfo
   | .node "func" _ => some .func
   | _ => none
 
-def file? : Sexp → Option FileIn
-  | .node "f" [name, bytes, ast] => do
-    let ast ← match ast with
-      | .atom "noparse" => some none
-      | .node "ast" ds => do pure (some ⟨← ds.mapM decl?⟩)
-      | _ => none
-    pure { name := (← asBytes? name), contents := (← asBytes? bytes), ast := ast }
+def fileCore? (name bytes ast : Sexp) : Option FileIn := do
+  let ast ← match ast with
+    | .atom "noparse" => some none
+    | .node "ast" ds => do pure (some ⟨← ds.mapM decl?⟩)
+    | _ => none
+  pure { name := (← asBytes? name), contents := (← asBytes? bytes), ast := ast }
+
+/-- a file of a run; the optional fourth argument is what the previous run left in a file that was generated
+anew before this run (the previous run is judged against that, not against the new content) -/
+def file? : Sexp → Option (FileIn × Option Bytes)
+  | .node "f" [name, bytes, ast] => do pure (← fileCore? name bytes ast, none)
+  | .node "f" [name, bytes, ast, prev] => do pure (← fileCore? name bytes ast, some (← asBytes? prev))
   | _ => none
 
-def run? : Sexp → Option (List FileIn)
+def run? : Sexp → Option (List (FileIn × Option Bytes))
   | .node "run" fs => fs.mapM file?
   | _ => none
 
@@ -64,11 +69,12 @@ def handle (op : String) (args : List Sexp) (impl : List Sexp) : Option Reply :=
     let (runsS, oracle) ← match args.reverse with
       | o :: rest => some (rest.reverse, o)
       | [] => none
-    let runs ← runsS.mapM run?
+    let runsP ← runsS.mapM run?
+    let runs := runsP.map (·.map (·.1))
     let outs ← outs.mapM asBytes?
     let implPanicked := panicFlag == Sexp.atom "panic"
     -- expected inputs of the next run / final outputs
-    let nexts : List (List Bytes) := (runs.drop 1).map (fun fs => fs.map (·.contents)) ++ [outs]
+    let nexts : List (List Bytes) := (runsP.drop 1).map (fun fs => fs.map (fun fp => fp.2.getD fp.1.contents)) ++ [outs]
     let results := runs.map runModel
     let agree := (results.zip nexts).all fun (r, nx) => match r with
       | some (o, _) => o == nx
